@@ -67,6 +67,11 @@ type ChanV struct {
 	Closed bool
 }
 type FloatV float64
+
+// FloatSym is the only symbolic float supported: the value of time.Duration.Seconds(), i.e.
+// float64(sec) + float64(nsec)/1e9 with |nsec| < 1e9 and sec, nsec of the same sign. Converting it to an
+// integer truncates towards zero, which is exactly sec.
+type FloatSym struct{ Sec *smt.Term }
 type NativeV struct {
 	Tag string
 	V   interface{}
